@@ -825,8 +825,12 @@ int _vnadata_load_npd(vnadata_internal_t *vdip, FILE *fp, const char *filename)
     /*
      * Set-up the output matrix.
      */
+    /*
+     * The frequencies are added as their data lines are read: the count
+     * in the file is not a safe size for an allocation.
+     */
     if (vnadata_init(vdp, best_type, best_drows, best_dcolumns,
-		frequencies) == -1) {
+		/*frequencies*/0) == -1) {
 	goto out;		/* vnadata_init has reported the error */
     }
     if (z0_vector != NULL) {
@@ -875,7 +879,7 @@ int _vnadata_load_npd(vnadata_internal_t *vdip, FILE *fp, const char *filename)
 		    FIELD(&nss, 0));
 	    goto out;
 	}
-	if (vnadata_set_frequency(vdp, findex, f) == -1) {
+	if (vnadata_add_frequency(vdp, f) == -1) {
 	    goto out;		/* the error has been reported */
 	}
 	if (fz0) {
